@@ -105,6 +105,21 @@ Definition check_d (p n : nat) : bool :=
                  then neighboursb c (coordinate_from_distance p n (h + 1)) else true))
           (nrange 0 (2 ^ (n * p))).
 
+(* the same over the distances lo .. lo+cnt-1 only (used by the thorough tier of the
+   correspondence run to evaluate adjacency inside the kernel beyond C07_scope, in shards) *)
+Definition check_d_range (p n : nat) (lo cnt : N) : bool :=
+  let side := 2 ^ N.of_nat p in
+  let top := 2 ^ N.of_nat (n * p) in
+  forallb (fun h =>
+             let c := coordinate_from_distance p n h in
+             (length c =? n)%nat
+             && forallb (fun x => x <? side) c
+             && (distance_from_coordinate p c =? h)
+             && (if h + 1 <? top
+                 then neighboursb c (coordinate_from_distance p n (h + 1)) else true)
+             && (if (n =? 2)%nat then list_N_eqb c (pairN_list (hilbert_ref p h)) else true))
+          (nrange lo (N.to_nat cnt)).
+
 (* one pass over all cells: range, round trip, refinement towards the coarser order *)
 Definition check_c (p n : nat) : bool :=
   let top := 2 ^ N.of_nat (n * p) in
@@ -129,12 +144,12 @@ Definition check_classical (p : nat) : bool :=
   forallb (fun h => list_N_eqb (coordinate_from_distance p 2 h) (pairN_list (hilbert_ref p h)))
           (nrange 0 (2 ^ (2 * p))).
 
-Definition check_scope : bool :=
-  forallb (fun '(p, n) => check_d p n && check_c p n && check_ends p n
-                          && (if (n =? 2)%nat then check_classical p else true)) C07_scope.
+Definition check_pn (pn : nat * nat) : bool :=
+  check_d (fst pn) (snd pn) && check_c (fst pn) (snd pn) && check_ends (fst pn) (snd pn)
+  && (if (snd pn =? 2)%nat then check_classical (fst pn) else true).
 
 (* ---- the run ----------------------------------------------------------- *)
-Lemma check_scope_ok : check_scope = true.
+Lemma check_scope_ok : forallb check_pn C07_scope = true.
 Proof. vm_compute. reflexivity. Qed.
 
 Lemma scope_checks : forall p n, In (p, n) C07_scope ->
@@ -142,11 +157,13 @@ Lemma scope_checks : forall p n, In (p, n) C07_scope ->
     (n = 2%nat -> check_classical p = true).
 Proof.
   intros p n Hin.
-  pose proof check_scope_ok as H. unfold check_scope in H.
-  rewrite forallb_forall in H. specialize (H (p, n) Hin). cbv beta iota in H.
-  repeat (apply andb_prop in H; destruct H as [H ?]).
+  pose proof (proj1 (forallb_forall check_pn C07_scope) check_scope_ok (p, n) Hin) as H.
+  unfold check_pn in H. cbn [fst snd] in H.
+  apply andb_prop in H. destruct H as [H Hcl].
+  apply andb_prop in H. destruct H as [H He].
+  apply andb_prop in H. destruct H as [Hd Hc].
   repeat split; try assumption.
-  intros ->. assumption.
+  intros ->. exact Hcl.
 Qed.
 
 (* ---- the statements ---------------------------------------------------- *)
@@ -165,7 +182,7 @@ Proof.
   apply andb_prop in Hc. destruct Hc as [Hc Hrt].
   apply andb_prop in Hc. destruct Hc as [Hlen Hrng].
   apply Nat.eqb_eq in Hlen. apply N.eqb_eq in Hrt.
-  repeat split; try assumption.
+  split; [assumption|]. split; [|split; [assumption|]].
   - apply Forall_forall. intros x Hx. rewrite forallb_forall in Hrng.
     apply N.ltb_lt. now apply Hrng.
   - intros Hlt. apply neighboursb_sound.
@@ -187,6 +204,83 @@ Proof.
   apply andb_prop in Hc. destruct Hc as [Hc Href].
   apply andb_prop in Hc. destruct Hc as [Hrng Hrt].
   apply N.ltb_lt in Hrng. apply list_N_eqb_eq in Hrt.
-  repeat split; try assumption.
+  split; [assumption|]. split; [assumption|].
   intros k ->. now apply N.eqb_eq in Href.
+Qed.
+
+(* ---- theorems over the scope ------------------------------------------- *)
+Theorem roundtrip_d_upto : forall p n h, In (p, n) C07_scope -> distance p n h ->
+    distance_from_coordinate p (coordinate_from_distance p n h) = h.
+Proof.
+  intros p n h Hin Hh. destruct (scope_checks p n Hin) as [Hd _].
+  now destruct (check_d_at p n h Hd Hh) as (_ & _ & Hrt & _).
+Qed.
+
+Theorem cfd_range_upto : forall p n h, In (p, n) C07_scope -> distance p n h ->
+    cell p n (coordinate_from_distance p n h).
+Proof.
+  intros p n h Hin Hh. destruct (scope_checks p n Hin) as [Hd _].
+  destruct (check_d_at p n h Hd Hh) as (Hl & Hr & _ & _). now split.
+Qed.
+
+Theorem adjacent_upto : forall p n h, In (p, n) C07_scope -> distance p n (h + 1) ->
+    neighbours (coordinate_from_distance p n h) (coordinate_from_distance p n (h + 1)).
+Proof.
+  intros p n h Hin Hh. destruct (scope_checks p n Hin) as [Hd _].
+  unfold distance in Hh.
+  assert (Hh0 : h < 2 ^ N.of_nat (n * p)) by lia.
+  destruct (check_d_at p n h Hd Hh0) as (_ & _ & _ & Hadj). now apply Hadj.
+Qed.
+
+Theorem roundtrip_c_upto : forall p n c, In (p, n) C07_scope -> cell p n c ->
+    coordinate_from_distance p n (distance_from_coordinate p c) = c.
+Proof.
+  intros p n c Hin Hc. destruct (scope_checks p n Hin) as (_ & Hcc & _).
+  now destruct (check_c_at p n c Hcc Hc) as (_ & Hrt & _).
+Qed.
+
+Theorem dfc_range_upto : forall p n c, In (p, n) C07_scope -> cell p n c ->
+    distance p n (distance_from_coordinate p c).
+Proof.
+  intros p n c Hin Hc. destruct (scope_checks p n Hin) as (_ & Hcc & _).
+  now destruct (check_c_at p n c Hcc Hc) as (Hr & _ & _).
+Qed.
+
+(* refinement: the order-(p+1) distance of a cell, without its last n bits, is
+   the order-p distance of the parent cell (every coordinate halved) *)
+Theorem refinement_upto : forall p n c, (1 <= p)%nat -> In (S p, n) C07_scope -> cell (S p) n c ->
+    N.shiftr (distance_from_coordinate (S p) c) (N.of_nat n) =
+    distance_from_coordinate p (map (fun x => N.shiftr x 1) c).
+Proof.
+  intros p n c Hp Hin Hc. destruct (scope_checks (S p) n Hin) as (_ & Hcc & _).
+  destruct (check_c_at (S p) n c Hcc Hc) as (_ & _ & Href).
+  destruct p as [|k]; [lia|]. now apply Href.
+Qed.
+
+Theorem endpoints_upto : forall p n, In (p, n) C07_scope ->
+    coordinate_from_distance p n 0 = repeat 0 n /\
+    coordinate_from_distance p n (2 ^ N.of_nat (n * p) - 1) =
+    match n with O => [] | S m => (2 ^ N.of_nat p - 1) :: repeat 0 m end.
+Proof.
+  intros p n Hin. destruct (scope_checks p n Hin) as (_ & _ & He & _).
+  unfold check_ends in He. apply andb_prop in He. destruct He as [H0 H1].
+  split; now apply list_N_eqb_eq.
+Qed.
+
+Theorem classical_upto : forall p h, In (p, 2%nat) C07_scope -> distance p 2 h ->
+    coordinate_from_distance p 2 h = [fst (hilbert_ref p h); snd (hilbert_ref p h)].
+Proof.
+  intros p h Hin Hh. destruct (scope_checks p 2 Hin) as (_ & _ & _ & Hcl).
+  specialize (Hcl eq_refl). unfold check_classical in Hcl. rewrite forallb_forall in Hcl.
+  apply list_N_eqb_eq. apply Hcl. apply in_nrange; [lia|].
+  rewrite pow2_of_nat. exact Hh.
+Qed.
+
+(* every cell is visited exactly once *)
+Theorem bijection_upto : forall p n c, In (p, n) C07_scope -> cell p n c ->
+    exists! h, distance p n h /\ coordinate_from_distance p n h = c.
+Proof.
+  intros p n c Hin Hc. exists (distance_from_coordinate p c). split.
+  - split; [now apply dfc_range_upto|now apply roundtrip_c_upto].
+  - intros h [Hh Heq]. subst c. now apply roundtrip_d_upto.
 Qed.
